@@ -74,10 +74,18 @@ Proof. exact other_key_rejected_partial. Qed.
 Print Assumptions C15_other_key_rejected_partial.
 
 Theorem C15_alg_mismatch_rejected : forall (key : Type) (check : key -> list N -> list N -> bool) k vs alg sigf,
-  sizes_ok vs alg sigf -> alg <> alg_sm2sm3 ->
+  sizes_ok vs alg sigf -> alg <> alg_sm2sm3 -> alg <> alg_sm2sm3_null ->
   signed_verify key check k (sign_to_der vs alg sigf) = false.
 Proof. exact alg_mismatch_rejected. Qed.
 Print Assumptions C15_alg_mismatch_rejected.
+
+(* acceptance by x509_signed_verify implies: identifier is sm2sign-with-sm3 AND the signature checks over the TBS bytes *)
+Theorem C15_verify_decision_rule : forall (key : Type) (check : key -> list N -> list N -> bool) k a,
+  signed_verify key check k a = true ->
+  exists tbs alg sig, signed_from_der a = Some (tbs, alg, sig) /\
+    (alg = alg_sm2sm3 \/ alg = alg_sm2sm3_null) /\ check k tbs sig = true.
+Proof. exact signed_verify_decision_rule. Qed.
+Print Assumptions C15_verify_decision_rule.
 
 Theorem C15_trailing_rejected : forall (key : Type) (check : key -> list N -> list N -> bool) k vs alg sigf x r,
   sizes_ok vs alg sigf -> signed_verify key check k (sign_to_der vs alg sigf ++ x :: r) = false.
